@@ -113,14 +113,40 @@ static void hand_over(int self, int to, uint32_t edge) {
   futex_wait(&tasks[self].wake);
 }
 
+static __thread int t_no_preempt = 0;  /* inside a libc primitive that must not be interrupted (pthread_once init) */
+static __thread long t_since_switch = 0;
+
 static inline void yield_point(uint32_t edge) {
   int me = t_task;
   struct fine_task *t = &tasks[me];
   long s = t->local_step++;
+  if (t_no_preempt) return;
   if (t->next_pre < t->n_pre && t->pre[t->next_pre].at <= s) {
     int to = pick_runnable(t->pre[t->next_pre].to, me);
     t->next_pre++;
+    if (to >= 0) {
+      t_since_switch = 0;
+      hand_over(me, to, edge);
+      return;
+    }
+  }
+  /* fairness: a caller that spins (e.g. waiting for a lock held by a parked caller) lets the others run */
+  if (++t_since_switch > 200000) {
+    t_since_switch = 0;
+    int to = pick_runnable((int)(s & 7), me);
     if (to >= 0) hand_over(me, to, edge);
+  }
+}
+
+void sim_no_preempt(int delta) { t_no_preempt += delta; }
+
+/* the running caller cannot make progress (lock held by a parked caller): let another one run */
+void fine_force_yield(void) {
+  if (t_task < 0) return;
+  int to = pick_runnable((int)(tasks[t_task].local_step & 7), t_task);
+  if (to >= 0) {
+    t_since_switch = 0;
+    hand_over(t_task, to, 0x7fffffffu);
   }
 }
 
